@@ -13,6 +13,9 @@ partial def stmtOfSexp : Sexp → Option Stmt
       let lab : Option Nat := if l = "-" then none else l.toNat?
       some (.block lab (← stmtsOfSexp body))
   | .list (.atom "loop" :: .atom l :: body) => do some (.loop (← l.toNat?) (← stmtsOfSexp body))
+  -- `(loopc <label> (<cond stmt> ...) (<body stmt> ...))` = `label: while { cond; ? } { body }`
+  | .list [.atom "loopc", .atom l, .list cond, .list body] => do
+      some (.loopC (← l.toNat?) (← stmtsOfSexp cond) (← stmtsOfSexp body))
   | .list (.atom "if" :: body) => do some (.ifS (← stmtsOfSexp body))
   | .list [.atom "brk", .atom l] => l.toNat?.map .brk
   | .list [.atom "cont", .atom l] => l.toNat?.map .cont
